@@ -349,6 +349,38 @@ Proof.
   apply (etym_rows_NoDup (fun r => index_of (key_at D (fst r) ci) (x_cols X))). constructor.
 Qed.
 
+Lemma fold_max_eq {A} (f : A -> nat) (L : list A) m :
+  (forall x, In x L -> (f x <= m)%nat) -> (exists x, In x L /\ f x = m) ->
+  fold_right Nat.max O (map f L) = m.
+Proof.
+  intros B [x [Hx E]]. apply Nat.le_antisymm.
+  - clear x Hx E. induction L as [|a t IH]; cbn [map fold_right]; [lia|].
+    pose proof (B a (or_introl eq_refl)). specialize (IH (fun y Hy => B y (or_intror Hy))). lia.
+  - clear B. induction L as [|a t IH]; [destruct Hx|]. cbn [map fold_right].
+    destruct Hx as [->|Hx]; [lia|]. specialize (IH Hx). lia.
+Qed.
+
+Lemma dict_keys_first_occ (P : list prow) : forall acc : cdict,
+  map fst (fold_left (fun d r => cd_add d (pconc r) (plang r) (pid r)) P acc) =
+  fold_left (fun a x => if zmem x a then a else a ++ [x]) (map pconc P) (map fst acc).
+Proof.
+  induction P as [|r t IH]; intros acc; cbn [fold_left map]; [reflexivity|].
+  rewrite IH, cd_add_keys. f_equal.
+  unfold dmem. destruct (dget Z.eqb acc (pconc r)) eqn:E.
+  - apply (dget_In Z.eqb Zeqb_spec) in E. apply (in_map fst) in E. cbn [fst] in E.
+    rewrite (proj2 (zmem_In _ _) E). reflexivity.
+  - apply (dget_None_notin Z.eqb Zeqb_spec) in E.
+    destruct (zmem (pconc r) (map fst acc)) eqn:Ez; [apply zmem_In in Ez; contradiction|reflexivity].
+Qed.
+
+Lemma flat_map_keys {V B} (g : Z -> nat -> list B) (h : V -> nat) (hh : Z -> nat) (D0 : list (Z * V)) :
+  (forall c d, In (c, d) D0 -> h d = hh c) ->
+  flat_map (fun cd => g (fst cd) (h (snd cd))) D0 = flat_map (fun c => g c (hh c)) (map fst D0).
+Proof.
+  induction D0 as [|[c d] t IH]; intros H; cbn [flat_map map fst snd]; [reflexivity|].
+  rewrite (H c d (or_introl eq_refl)), IH; [reflexivity|]. intros c' d' Hin. apply H. right. exact Hin.
+Qed.
+
 (* ------------------------------------------------------- well-formed state *)
 Section WF.
   Variables (K : keys) (D : list row) (ri ci : nat).
@@ -699,6 +731,141 @@ Section WF.
     change (get_etymdict D ci X ref) with (etym_fold ref D []).
     destruct (etym_rows_spec ref D (incl_refl D) [] (fun k v H => match H with end)) as [W _]. apply W.
   Qed.
+
+  (* ------------------------------------------ get_list(row=c), two-dimensional *)
+  Lemma ent_nth e (rs : list row) k : incl rs D ->
+    ent D e (nth k (map fst rs) 0) = nth k (map (ent_row e) rs) (Atom 0).
+  Proof.
+    revert k. induction rs as [|r t IH]; intros k Hin.
+    - destruct k; cbn [map nth]; unfold ent; destruct e; reflexivity.
+    - destruct k as [|k]; cbn [map nth].
+      + apply ent_In; [exact ids_distinct|apply Hin; left; reflexivity|].
+        specialize (ids_pos r (Hin r (or_introl eq_refl))). lia.
+      + apply IH. intros x Hx. apply Hin. right. exact Hx.
+  Qed.
+
+  Lemma maxlen_bounds c d : In c (x_rows X) -> zget (build_dict P) c = Some d ->
+    (forall l, List.length (cellrows c l) <= maxlen d)%nat
+    /\ (exists l, In l (x_cols X) /\ List.length (cellrows c l) = maxlen d).
+  Proof.
+    intros Hc Hd. split.
+    - intros l. pose proof (maxlen_ge d l) as G.
+      rewrite (dict_entry c d Hd l), cellset_cellrows, map_length in G. exact G.
+    - pose proof (dget_In Z.eqb Zeqb_spec _ _ _ Hd) as Hind.
+      assert (Nd : d <> []).
+      { apply rows_spec in Hc. destruct Hc as [r [Hr Ec]].
+        assert (Hin : In (fst r) (cellset P c (rkey ci r))).
+        { apply cellset_In. exists (mkp ri ci r). split; [apply P_In; exists r; auto|]. cbn. auto. }
+        rewrite <- (dict_entry c d Hd) in Hin. intros E. subst d. exact Hin. }
+      destruct (maxlen_attained d Nd) as [l [ids [Hl El]]].
+      pose proof (In_dget_NoDup Z.eqb Zeqb_spec _ _ _ (build_dict_inner_NoDup P c d Hind) Hl) as Hz.
+      assert (Elk : lk d l = ids) by (unfold lk, zget; rewrite Hz; reflexivity).
+      assert (Elen : List.length (cellrows c l) = maxlen d).
+      { rewrite <- El, <- Elk, (dict_entry c d Hd l), cellset_cellrows, map_length. reflexivity. }
+      exists l. split; [|exact Elen].
+      apply cols_spec.
+      assert (Hne : cellrows c l <> []).
+      { intros E. rewrite E in Elen. cbn in Elen.
+        destruct ids as [|i0 it]; [|cbn in El; lia].
+        (* an empty list is never stored in _dict *)
+        rewrite <- Elk, (dict_entry c d Hd l), cellset_cellrows, E in El. clear El.
+        apply rows_spec in Hc. destruct Hc as [r [Hr Ec]].
+        assert (Hin : In (fst r) (cellset P c (rkey ci r))).
+        { apply cellset_In. exists (mkp ri ci r). split; [apply P_In; exists r; auto|]. cbn. auto. }
+        rewrite <- (dict_entry c d Hd) in Hin.
+        pose proof (maxlen_ge d (rkey ci r)) as G. rewrite <- Elen in G.
+        destruct (lk d (rkey ci r)); [exact Hin|cbn in G; lia]. }
+      destruct (cellrows c l) as [|r0 t0] eqn:E0; [contradiction|].
+      assert (Hr0 : In r0 (cellrows c l)) by (rewrite E0; left; reflexivity).
+      apply filter_In in Hr0. destruct Hr0 as [Hr0 Hb0]. apply andb_true_iff in Hb0.
+      exists r0. split; [exact Hr0|]. apply Z.eqb_eq. apply Hb0.
+  Qed.
+
+  Lemma maxlen_height c d : In c (x_rows X) -> zget (build_dict P) c = Some d ->
+    maxlen d = height_of D ri ci (x_cols X) c.
+  Proof.
+    intros Hc Hd. destruct (maxlen_bounds c d Hc Hd) as [B A]. symmetry. unfold height_of.
+    apply (fold_max_eq (fun l => List.length (cellrows c l))); [intros l _; apply B|exact A].
+  Qed.
+
+  (* the concept-by-language table of one concept, slot by slot: line k holds,
+     in the column of language l, the k-th row (in row order) of the cell (c, l),
+     or 0 when the cell has no more than k rows; there are as many lines as the
+     fullest cell of the concept has rows *)
+  Theorem get_list_row_spec c e : In c (x_rows X) ->
+    get_list_row D X c e =
+    Some (map (fun k => map (fun l => nth k (map (ent_row e) (cellrows c l)) (Atom 0)) (x_cols X))
+              (seq 0 (height_of D ri ci (x_cols X) c))).
+  Proof.
+    intros Hc. destruct (idx_of_row c Hc) as [is His].
+    destruct (block_lines K P c is His) as [d [Hd Hb]]. fold X in Hb.
+    rewrite <- (maxlen_height c d Hc Hd).
+    unfold get_list_row, block_of. rewrite (proj2 (zmem_In c (x_rows X)) Hc), His. cbn [option_map].
+    unfold sel_rows. rewrite Hb, map_map. f_equal. apply map_ext. intros k. rewrite map_map.
+    apply map_ext. intros l. unfold slot. cbn [fst snd]. rewrite cellset_cellrows.
+    apply ent_nth. intros r Hr. apply filter_In in Hr. apply Hr.
+  Qed.
+
+  Lemma first_occ_acc_In (l : list Z) : forall acc x,
+    In x (fold_left (fun a y => if zmem y a then a else a ++ [y]) l acc) <-> In x acc \/ In x l.
+  Proof.
+    induction l as [|y t IH]; intros acc x; cbn [fold_left In]; [tauto|].
+    rewrite IH. destruct (zmem y acc) eqn:E.
+    - apply zmem_In in E. split; [tauto|]. intros [H|[<-|H]]; auto.
+    - rewrite in_app_iff. cbn [In]. tauto.
+  Qed.
+
+  Lemma dict_keys : map fst (build_dict P) = first_occ (map (rkey ri) D).
+  Proof. unfold build_dict, first_occ. rewrite dict_keys_first_occ, P_pconc. reflexivity. Qed.
+
+  (* the whole concept-by-language table: the concepts in order of first
+     occurrence in the rows; for each, the lines described above (ids) *)
+  Theorem array_exact :
+    x_array X =
+    flat_map (fun c => map (fun k => map (fun l => nth k (map fst (cellrows c l)) 0) (x_cols X))
+                           (seq 0 (height_of D ri ci (x_cols X) c)))
+             (first_occ (map (rkey ri) D)).
+  Proof.
+    rewrite <- dict_keys. unfold X at 1. rewrite array_grid. fold X. unfold lines.
+    rewrite flat_map_concat_map, concat_map, map_map, <- flat_map_concat_map.
+    rewrite <- (flat_map_keys
+      (fun c n => map (fun k => map (fun l => nth k (map fst (cellrows c l)) 0) (x_cols X)) (seq 0 n))
+      maxlen (height_of D ri ci (x_cols X)) (build_dict P)).
+    - apply flat_map_ext. intros [c d]. cbn [fst snd]. rewrite map_map. apply map_ext. intros k.
+      apply map_ext. intros l. unfold slot. cbn [fst snd]. rewrite cellset_cellrows. reflexivity.
+    - intros c d Hin. apply maxlen_height.
+      + apply rows_spec. apply (in_map fst) in Hin. cbn [fst] in Hin. rewrite dict_keys in Hin.
+        apply first_occ_acc_In in Hin. destruct Hin as [[]|Hin]. apply in_map_iff in Hin.
+        destruct Hin as [r [E Hr]]. exists r. auto.
+      + apply (In_dget_NoDup Z.eqb Zeqb_spec); [apply build_dict_keys_NoDup|exact Hin].
+  Qed.
+
+  (* get_list(col=l, entry=e), not flat: the column of language l of that table,
+     read through the entry *)
+  Theorem get_list_col_spec l e : In l (x_cols X) ->
+    get_list_col D X l e =
+    Some (flat_map (fun c => map (fun k => nth k (map (ent_row e) (cellrows c l)) (Atom 0))
+                                 (seq 0 (height_of D ri ci (x_cols X) c)))
+                   (first_occ (map (rkey ri) D))).
+  Proof.
+    intros Hl. destruct (index_of_In l (x_cols X) Hl) as [j Hj].
+    pose proof (index_of_spec _ _ _ Hj) as Hnth.
+    unfold get_list_col, col_of. rewrite (proj2 (zmem_In l (x_cols X)) Hl), Hj. cbn [option_map]. f_equal.
+    unfold X at 1. rewrite array_grid. fold X. rewrite (column_grid _ _ _ _ _ Hnth), map_map.
+    rewrite <- dict_keys. unfold lines.
+    rewrite flat_map_concat_map, concat_map, map_map, <- flat_map_concat_map.
+    rewrite <- (flat_map_keys
+      (fun c n => map (fun k => nth k (map (ent_row e) (cellrows c l)) (Atom 0)) (seq 0 n))
+      maxlen (height_of D ri ci (x_cols X)) (build_dict P)).
+    - apply flat_map_ext. intros [c d]. cbn [fst snd]. rewrite map_map. apply map_ext. intros k.
+      unfold slot. cbn [fst snd]. rewrite cellset_cellrows.
+      apply ent_nth. intros r Hr. apply filter_In in Hr. apply Hr.
+    - intros c d Hin. apply maxlen_height.
+      + apply rows_spec. apply (in_map fst) in Hin. cbn [fst] in Hin. rewrite dict_keys in Hin.
+        apply first_occ_acc_In in Hin. destruct Hin as [[]|Hin]. apply in_map_iff in Hin.
+        destruct Hin as [r [E Hr]]. exists r. auto.
+      + apply (In_dget_NoDup Z.eqb Zeqb_spec); [apply build_dict_keys_NoDup|exact Hin].
+  Qed.
 End WF.
 
 (* ================================================= well-formed wordlists *)
@@ -748,6 +915,28 @@ Proof.
   - intros r Hr. apply keep_rows_spec in Hr. apply Hr.
   - exact (to_prows_len _ _ _ _ _ Ep).
   - rewrite Ek. discriminate.
+Qed.
+
+(* file input: the converted rows keep the ids of the file's rows *)
+Lemma convert_rows_ids kd hdr d typed : convert_rows kd hdr d = Some typed -> map fst typed = map fst d.
+Proof.
+  unfold convert_rows. intros H. apply all_some_map in H.
+  induction H as [|r p t tp H1 H2 IH]; [reflexivity|]. cbn [map]. rewrite IH. f_equal.
+  destruct (conv_cells (map (kind_of kd) hdr) (snd r)); cbn [option_map] in H1; [|discriminate].
+  inversion H1. reflexivity.
+Qed.
+
+(* every view of a loaded file is the view of its typed rows: the object is the
+   one the dictionary constructor builds from the converted rows, and it is well-formed *)
+Theorem load_file_wf t kinds K hdr d row col meta w :
+  NoDup (map fst d) -> load_file t kinds K hdr d row col meta = Some w ->
+  wf K w /\ exists typed, convert_rows (read_kinds kinds) hdr d = Some typed /\
+                          build_gen t K hdr typed row col meta = Some w /\ map fst typed = map fst d.
+Proof.
+  intros ND. unfold load_file. destruct (convert_rows (read_kinds kinds) hdr d) as [typed|] eqn:E; [|discriminate].
+  intros H. pose proof (convert_rows_ids _ _ _ _ E) as Ei. split.
+  - apply (build_gen_wf t K hdr typed row col meta w); [rewrite Ei; exact ND|exact H].
+  - exists typed. auto.
 Qed.
 
 Theorem build_wf t K hdr d w : NoDup (map fst d) -> build t K hdr d = Some w -> wf K w.
@@ -1024,5 +1213,31 @@ Section WFW.
     In cog (map fst (get_etymdict D ci X ref)) <-> exists r, In r D /\ In cog (carried ref r).
   Proof.
     rewrite wf_X. exact (etymdict_keys K D ri ci (wf_ids K w W) (proj1 I) ref cog).
+  Qed.
+
+  Theorem wf_list_row c e : In c (x_rows X) ->
+    get_list_row D X c e =
+    Some (map (fun k => map (fun l => nth k (map (ent_row e) (cellrows D ri ci c l)) (Atom 0)) (x_cols X))
+              (seq 0 (height_of D ri ci (x_cols X) c))).
+  Proof.
+    rewrite wf_X. exact (get_list_row_spec K D ri ci (wf_ids K w W) (wf_pos K w W) c e).
+  Qed.
+
+  Theorem wf_array_exact :
+    x_array X =
+    flat_map (fun c => map (fun k => map (fun l => nth k (map fst (cellrows D ri ci c l)) 0) (x_cols X))
+                           (seq 0 (height_of D ri ci (x_cols X) c)))
+             (first_occ (map (rkey ri) D)).
+  Proof.
+    rewrite wf_X. exact (array_exact K D ri ci).
+  Qed.
+
+  Theorem wf_list_col l e : In l (x_cols X) ->
+    get_list_col D X l e =
+    Some (flat_map (fun c => map (fun k => nth k (map (ent_row e) (cellrows D ri ci c l)) (Atom 0))
+                                 (seq 0 (height_of D ri ci (x_cols X) c)))
+                   (first_occ (map (rkey ri) D))).
+  Proof.
+    rewrite wf_X. exact (get_list_col_spec K D ri ci (wf_ids K w W) (wf_pos K w W) l e).
   Qed.
 End WFW.
